@@ -10,6 +10,7 @@
                the two call contexts (worker / parent) dumps for either kind of storage; force_dump only from adaptive
   5 shared     a storage class that lets workers dump has cross-process backing which no method rebinds
   6 executor   _executor_for_func returns or raises on every path, own entry first, then the '' default
+  7 picklable-state  every attribute in which PipeFunc keeps the user's function object is pickled by value (process pools)
 """
 
 from __future__ import annotations
@@ -348,13 +349,75 @@ def rule_executor(ctx: Ctx) -> None:
     ctx.tri("6-executor", ef, ef.node, RAISE in cfg.reachable_from(ENTRY), False, "no executor for an output and no default -> error", "", "no raise found", key="has-raise")
 
 
+def rule_picklable_state(ctx: Ctx) -> None:
+    """Whatever a PipeFunc keeps of the user's function object crosses the process boundary by value.
+
+    Process pools pickle the PipeFunc with plain pickle.  `PipeFunc.func` is the raw function; for a function decorated at
+    module level the module attribute of that name is the PipeFunc itself, so the function cannot be pickled by reference and
+    `__getstate__` converts it with cloudpickle.  Every OTHER attribute that one of the class's methods fills with (an object
+    holding) `self.func` needs the same treatment - by `PipeFunc.__getstate__`, or by the `__getstate__` of the holder class -
+    otherwise the PipeFunc stops working in process pools once that attribute has been set (sequential execution still works)."""
+    P = ctx.prog
+    pf = P.cls("pipefunc._pipefunc.PipeFunc")
+    gs = pf.methods["__getstate__"]
+    gs_text = norm(gs.node)
+    n = 0
+    for m in pf.methods.values():
+        par = {id(c): p_ for p_ in ast.walk(m.node) for c in ast.iter_child_nodes(p_)}
+        for a in [x for x in ast.walk(m.node) if isinstance(x, ast.Assign)]:
+            attrs = [t.attr for t in a.targets if isinstance(t, ast.Attribute) and isinstance(t.value, ast.Name) and t.value.id == "self"]
+            if not attrs or attrs[0] == "func":
+                continue
+            # `self.func` used as a value (not as the base of `.name` / of a call)
+            held = [x for x in ast.walk(a.value) if isinstance(x, ast.Attribute) and x.attr == "func" and isinstance(x.value, ast.Name) and x.value.id == "self"
+                    and not (isinstance(par.get(id(x)), ast.Attribute) and par[id(x)].value is x) and not (isinstance(par.get(id(x)), ast.Call) and par[id(x)].func is x)]
+            if not held:
+                continue
+            n += 1
+            attr = attrs[0]
+            by_pipefunc = f"'{attr}'" in gs_text and f"cloudpickle.dumps(self.{attr})" in gs_text
+            holder_ok, holder_bad, why = False, False, ""
+            v = a.value
+            if isinstance(v, ast.Call):
+                ctors = [c for c in ctx.cg.resolve_callable(m, v.func) if c.cls is not None]
+                q = P.resolve_name(m.module, dotted(v.func), m)
+                hc = P.classes.get(q)
+                if hc is not None:
+                    # which field of the holder receives self.func
+                    fields_ = list(hc.fields)
+                    fld = None
+                    for i, arg_ in enumerate(v.args):
+                        if arg_ is held[0] and i < len(fields_):
+                            fld = fields_[i]
+                    for k in v.keywords:
+                        if k.value is held[0]:
+                            fld = k.arg
+                    hgs = hc.methods.get("__getstate__") if "__getstate__" in dict.keys(hc.methods) else None
+                    if fld is not None:
+                        if hgs is not None and f"cloudpickle.dumps(self.{fld})" in norm(hgs.node):
+                            holder_ok, why = True, f"{hc.name}.__getstate__ pickles `{fld}` by value"
+                        elif hgs is None or not any(isinstance(c, ast.Call) and dotted(c.func).endswith("dumps") and any(norm(a_) == f"self.{fld}" for a_ in c.args) for c in ast.walk(hgs.node)):
+                            holder_bad, why = True, f"{hc.name} has no __getstate__ that pickles `{fld}` by value"
+                _ = ctors
+            ctx.tri("7-picklable-state", m, a, by_pipefunc or holder_ok, holder_bad and not by_pipefunc,
+                    f"`self.{attr}` holds the user's function; " + (why or "PipeFunc.__getstate__ converts it with cloudpickle"),
+                    f"`{norm(a)[:70]}` stores the user's function in `self.{attr}`, but neither PipeFunc.__getstate__ converts `{attr}` nor does the holder pickle it by value ({why}): "
+                    "after this assignment the PipeFunc cannot be sent to a process pool (PicklingError for functions decorated at module level), while sequential execution still works",
+                    f"`self.{attr}` holds the user's function in a way this rule does not follow", key=f"holds-func {attr}")
+    ctx.tri("7-picklable-state", gs, gs.node, "cloudpickle.dumps(self.func)" in gs_text, "self.func" not in gs_text and "'func'" not in gs_text, "PipeFunc.__getstate__ pickles `func` by value",
+            "PipeFunc.__getstate__ no longer treats `func` specially", "handling of `func` in __getstate__ not recognised", key="func-by-value")
+    ctx.floor("7-picklable-state.holders", n, 1)
+
+
 def check(ctx: Ctx) -> None:
-    for rule in (rule_mirror, rule_barrier, rule_placement, rule_one_dump, rule_shared, rule_executor):
+    for rule in (rule_mirror, rule_barrier, rule_placement, rule_one_dump, rule_shared, rule_executor, rule_picklable_state):
         ctx.run(rule)
 
 
 R, D = "pipefunc/map/_run.py", "pipefunc/map/_storage_array/_dict.py"
 MUTANTS = [
+    Mutant("snapshot-function-by-reference-F36", "pipefunc/_pipefunc.py", '        state["function"] = cloudpickle.dumps(self.function)\n', "", ("C03.7-picklable-state",), why="original F36"),
+    Mutant("snapshot-getstate-plain-copy", "pipefunc/_pipefunc.py", '        state["function"] = cloudpickle.dumps(self.function)\n', '        state["function"] = self.function\n', ("C03.7-picklable-state",)),
     Mutant("async-as-completed", R, "        outputs_list = await asyncio.gather(*futs)\n", "        outputs_list = [await fut for fut in asyncio.as_completed(futs)]\n", ("C03.2-barrier", "C03.1-mirror"), why="seeded C03/1"),
     Mutant("async-wait-first-exception", R, "        outputs_list = await asyncio.gather(*futs)\n", "        done, _pending = await asyncio.wait(futs, return_when=asyncio.FIRST_EXCEPTION)\n        outputs_list = [f.result() for f in futs]\n", ("C03.2-barrier", "C03.1-mirror"), why="seeded C13/3"),
     Mutant("async-skips-dump-single", R, "        r = await _result_async(task, loop)\n        output = _dump_single_output(func, r, store)\n", "        r = await _result_async(task, loop)\n        output = (r,)\n", ("C03.1-mirror",)),
